@@ -413,4 +413,47 @@ theorem lines_offered (cfg : Cfg μ) (b : Bool) (lines : List (List Nat)) :
   | cons l ls ih =>
     simp [List.flatMap_cons, offered_append, delivered_append, ih, processLine_offered]
 
+/-! ### vocabulary of the C05 / C13 theorems -/
+
+/-- the text is made of Unicode scalar values (its encoding is valid UTF-8) -/
+def ValidText (text : List Nat) : Prop := ∀ c ∈ text, isScalar c = true
+
+/-- a line the child wrote: valid text without a raw LF (it may contain CR, U+0085, U+2028,
+U+2029, VT, FF, … anywhere) -/
+def ValidItem (it : Item) : Prop := ValidText it.text ∧ LF ∉ it.text
+
+theorem validText_render (items : List Item) (h : ∀ it ∈ items, ValidItem it) :
+    ValidText (render items) := by
+  intro c hc
+  simp only [render, List.mem_flatMap] at hc
+  obtain ⟨it, hit, hc⟩ := hc
+  simp only [Item.rendered, List.mem_append] at hc
+  rcases hc with hc | hc
+  · exact (h it hit).1 c hc
+  · split at hc <;> simp [CR, LF] at hc <;> rcases hc with rfl | rfl <;> decide
+
+
+/-! ### runs over event lists -/
+
+theorem run_append (cfg : Cfg μ) (st : St) (a b : List Ev) :
+    run cfg st (a ++ b) = ((run cfg (run cfg st a).1 b).1, (run cfg st a).2 ++ (run cfg (run cfg st a).1 b).2) := by
+  induction a generalizing st with
+  | nil => simp [run]
+  | cons e es ih => simp [run, ih, List.append_assoc]
+
+theorem run_setVersion (cfg : Cfg μ) (st : St) (v : Option (List Char)) (es : List Ev) :
+    run cfg st (.setVersion v :: es) = run cfg { st with batching := supportsBatching v } es := by
+  simp [run, step]
+
+/-- after a handshake at version `v`: every chunking of a stream of complete lines is processed
+line by line in the mode of `v`, and leaves the reader with empty buffers in that mode -/
+theorem run_items (cfg : Cfg μ) (b : Bool) (items : List Item) (chunks : List (List Nat))
+    (hi : ∀ it ∈ items, ValidItem it) (hc : chunks.flatten = encode (render items)) :
+    run cfg { init with batching := b } (chunks.map Ev.chunk) =
+      ({ init with batching := b }, items.flatMap (fun it => processLine cfg b it.text)) := by
+  have h := runChunks_valid cfg b (render items) chunks (validText_render items hi) hc
+  unfold runChunks at h
+  rw [h, split_render items (fun it h => (hi it h).2)]
+  simp [List.flatMap_map, processLine_lineOf, init]
+
 end Verif.Lemmas.StdioIn
